@@ -99,8 +99,11 @@ def c12(work, tier, seed):
                             if len(scripts) % 5 == 3:
                                 # a login-name template: the file carries the rendered name, the token still the user's own
                                 c2 = dict(cfg, template=["{{ username }}@corp.example", "CORP\\{{ username }}"][len(scripts) % 2])
-                            scripts.append({"id": "cn%05d" % len(scripts), "kind": "connect", "cfg": c2, "session": session, "param": param, "user": user, "peerIP": peer, "xff": xff,
-                                            "replay": session == "authed" and sel != "signed"})
+                            sc = {"id": "cn%05d" % len(scripts), "kind": "connect", "cfg": c2, "session": session, "param": param, "user": user, "peerIP": peer, "xff": xff,
+                                  "replay": session == "authed" and sel != "signed"}
+                            if session == "authed" and len(scripts) % 4 == 1:
+                                sc["loginXFF"] = "192.0.2.77"   # logged in from one address, asks for the file from another
+                            scripts.append(sc)
     # signed selection: the same query token inside the verifier's clock-skew allowance and, 15 s later, outside it
     # (these scripts wait; they come first so that they run alongside the others)
     for store in ("cookie", "file"):
